@@ -803,12 +803,15 @@ class Gen:
         self.ishape = list(rng.choice(ISHAPES if kind == "numpy" else ISHAPES[:3]))
         self.fresh = 0
         self.bad_done = False
+        self.made_bad = False
 
     def push(self, ins, tsz):
         try:
             r = ref_step(self.refs, ins, self.seed, self.kind)
         except Invalid:
-            if not (self.malformed and not self.bad_done):
+            # only a step that was deliberately malformed may be the failing last step; a step the
+            # reference rejects for being outside the generated fragment is dropped
+            if not (self.malformed and not self.bad_done and self.made_bad):
                 return False
             self.prog.append(ins)
             self.bad_done = True
@@ -851,6 +854,7 @@ class Gen:
         ts = self.tsz[cur]
         ncell = int(np.prod(r.data.shape[:r.nn])) if r.nn else 1
         bad = self.malformed and not self.bad_done and rng.random() < 0.4
+        self.made_bad = False
         ops = ["map", "named", "named", "reduce", "mean", "std", "select", "iselect", "binC", "binA", "join", "broadcast", "transform", "bround"]
         if self.kind == "numpy":
             ops += ["stack", "concat", "flatten", "expand", "expand"]
@@ -881,6 +885,7 @@ class Gen:
                 if op == "stack" and not bad:
                     ins["bs"] = rng.choice([0, 1, n, n + 2])
             if bad:
+                self.made_bad = True
                 how = rng.choice(["baddim", "nonbatch"])
                 if how == "baddim":
                     ins["d"] = "nosuch"
@@ -933,10 +938,12 @@ class Gen:
                         continue
                     v = rng.choice(once) if rng.random() < 0.5 else rng.sample(once, rng.randint(1, len(once)))
                     if bad:
+                        self.made_bad = True
                         v = "nolabel" if not isinstance(v, list) else v + [12345]
                 else:
                     v = rng.randrange(-n, n) if rng.random() < 0.5 else [p - rng.choice([0, n]) for p in rng.sample(range(n), rng.randint(1, n))]
                     if bad:
+                        self.made_bad = True
                         v = n + 1
                 crit.append([k, v])
             if not crit:
@@ -964,6 +971,7 @@ class Gen:
             if rng.random() < 0.4:
                 ins["vals"] = gen_coords(rng, nn, rng.choice(["str", "int10"]))
                 if bad:
+                    self.made_bad = True
                     ins["vals"] = ins["vals"] + [99]
             if ins["axis"] > r.nn:
                 ins["axis"] = 0
@@ -1011,6 +1019,7 @@ class Gen:
                 new = [f"q{self.fresh}{i}" for i in range(m)] if isinstance(labs[0], str) else [1000 * self.fresh + i for i in range(m)]
                 dims = [[x, (new if x == d else list(r.coords[x]))] for x in r.dims]
                 if bad:
+                    self.made_bad = True
                     o = [x for x in r.dims if x != d]
                     if o:
                         dims = [[x, (gen_coords(rng, len(c), "int10") if x == o[0] else c)] for x, c in dims]
@@ -1035,6 +1044,7 @@ class Gen:
                 return False
             dims = [[n, list(r.coords[n]) if n in r.dims else gen_coords(rng, rng.choice([2, 3]))] for n in names]
             if bad and shared:
+                self.made_bad = True
                 dims = [[n, (gen_coords(rng, len(c), "int10") if n == shared[0] else c)] for n, c in dims]
             b = self.source(dims)
             excl = None
